@@ -101,3 +101,30 @@ def c13_driver(inp, obligation):
             if bad:
                 return True, {"script(error,npts)": script, "tol": tol, "min_evaluations": mn, "max_evaluations": mx, "violations": bad}
     return False, {"scripts_tried": tried}
+
+
+@handler("C13.error_estimate")
+def c13_error_estimate(inp, obligation):
+    """the real Integration.get_global_error_estimate on the counter-model's vectors against an independent numpy computation of the statement"""
+    import numpy as np
+    from sparseSpACE.GridOperation import Integration
+    ref = np.array([float(x) for x in inp["reference"]])
+    res = np.array([float(x) for x in inp["result"]])
+    p = np.inf if inp["norm"] == "inf" else int(inp["norm"])
+    op = object.__new__(Integration)
+    op.reference_solution = ref
+    op.integral = res
+    got = op.get_global_error_estimate(None, p)
+
+    def nrm(v):
+        v = np.abs(np.asarray(v, dtype=float))
+        return float(v.max()) if p == np.inf else float((v ** p).sum() ** (1.0 / p))
+    scale = 1.0 if p == np.inf else len(res) ** (1.0 / p)
+    if not np.any(ref != 0.0):
+        want, kind = nrm(res) / scale, "absolute (zero reference)"
+    elif np.all(ref != 0.0):
+        want, kind = nrm((ref - res) / ref) / scale, "relative (non-zero reference)"
+    else:
+        return False, {"note": "reference with some zero components: outside the contract"}
+    ok = got is not None and abs(float(got) - want) <= 1e-9 * max(1.0, abs(want))
+    return (not ok), {"reference": ref.tolist(), "result": res.tolist(), "norm": inp["norm"], "reported": None if got is None else float(got), "expected": want, "expected_kind": kind}
